@@ -102,9 +102,11 @@ PROPS["C20"] = {
 
 PENDING_REASON = "machinery for this property is not built yet in this revision of /verif (construction order: DESIGN.md §5)"
 
-MEM_NOTE = ("In-memory broker only in this revision: the Redis and RabbitMQ clients are outside the model and the check (see "
-            "DESIGN.md 'Coverage by broker'). Every in-memory broker call is one atomic block between two sleep(0) awaits, so a "
-            "cancelled call is absent or complete; the harness exercises that with real task.cancel() at 0..5 loop iterations. ")
+MEM_NOTE = ("Brokers: in-memory (full histories incl. concurrency and cancellation: every in-memory call is one atomic block "
+            "between two sleep(0) awaits, exercised with real task.cancel() at 0..5 loop iterations) and the Redis client for ONE "
+            "client doing one call at a time, over harness/fakeredis.py whose command semantics are coq/RedisSrv.v (trusted as the "
+            "description of the real server; fake and model are compared on the whole command/reply stream of every run); Redis "
+            "theorems are in Props/<ID>_redis.v. The RabbitMQ client is NOT covered (DESIGN.md §8.5). ")
 
 PROPS["C01"] = {
     "text": "Theorems over the in-memory broker model (MemBroker.v) for ALL finite histories of enqueue / poll / ack / nack / "
@@ -112,7 +114,7 @@ PROPS["C01"] = {
             "(counting invariant Partition, conservation law live_run), ack removes, nack dead-letters, reject returns to the "
             "category of origin, requeue replaces in one atomic effect, delivery marks exactly one holder. Tie: ~700 random "
             "histories per quick run on the real InMemoryMessageBroker in virtual time (concurrent consumers, cancelled calls), "
-            "abstract state compared with the model after every call, full messages at the end.",
+            "abstract state compared with the model after every call, full messages at the end. Redis (RedisBroker.v over RedisSrv.v): enqueue / ack / nack / reject / requeue / take keep every name in exactly one place, each is ONE server transaction (reject: a read, then one), other names untouched; tie: ~150 sequential histories per quick run, the client's whole command/reply stream equal to the model's.",
     "note": MEM_NOTE,
     "technique": "Coq proof by counting invariant over all histories + differential correspondence of broker histories",
     "design": "DESIGN.md §3 C01",
@@ -124,7 +126,7 @@ PROPS["C05"] = {
             "wait_until; every update pass moves every due entry. 'Never forgotten' is PARTIAL in Coq (no bound on polls between "
             "update passes) and checked by the oracle on the real consumer: a listening consumer receives the message within "
             "1 s + 3 ms + 1 ms per waiting message after T. Tie: ~500 histories per quick run with due times at every phase of "
-            "the clock and enqueues racing a polling consumer.",
+            "the clock and enqueues racing a polling consumer. Redis: due times are stored rounded UP to the second (fix recorded for C05) and the due-window query returns only scores <= floor(now): never early (C05_redis_*); lateness on Redis is bounded by the 0.1 s polling + 1 s rounding (observed, not proved).",
     "note": MEM_NOTE,
     "technique": "Coq proof by invariant (due-time invariant over all histories) + differential correspondence in virtual time",
     "design": "DESIGN.md §3 C05",
@@ -134,7 +136,7 @@ PROPS["C12"] = {
             "waiting list goes to the dead-letter list and is retrievable through the dead category; a poll dead-letters "
             "nothing else (live or ttl-less messages are never dropped); overdue is strict (at the expiry instant still live); "
             "reschedule restarts the ttl clock, retry keeps it. Tie: ~600 histories per quick run with clock advances to "
-            "expiry-1us / =expiry / +1us, delayed / retried / rescheduled messages (real _prepare_retry/_prepare_reschedule).",
+            "expiry-1us / =expiry / +1us, delayed / retried / rescheduled messages (real _prepare_retry/_prepare_reschedule). Redis: since the fix recorded for C12 only the normal category dead-letters expired messages (a dead-category consumer receives them) and a prefetched message is checked again when handed out; checked by ~150 sequential histories against the model and the oracle.",
     "note": MEM_NOTE + "Delivery = return of consume(); the in-memory consumer has no prefetch buffer.",
     "technique": "Coq proof over the poll function (all states, all instants) + differential correspondence at exact expiry instants",
     "design": "DESIGN.md §3 C12",
@@ -143,7 +145,7 @@ PROPS["C14"] = {
     "text": "Theorems (in-memory model, any number of consumers, any interleaving of their atomic polls): a delivered message was "
             "held by nobody and is afterwards held exactly once; a held message is not delivered again until it leaves the "
             "processing set; Partition holds in every reachable state; finish() of one consumer returns only its own messages. "
-            "Tie: ~600 histories per quick run with 2-5 consumers polling concurrently on one queue, holders compared after every call.",
+            "Tie: ~600 histories per quick run with 2-5 consumers polling concurrently on one queue, holders compared after every call. Redis: for one consumer the take is one transaction that moves a present name into 'processing' (C01_redis_grab_places_*); with two consumers it is NOT exclusive - refuted by witness (C14_redis_double_delivery_refuted) and reproduced on the real client on every run as known finding redis_double_delivery_two_consumers.",
     "note": MEM_NOTE + "All consumers share one process and event loop (the only way to share the in-memory broker). "
             "The 'executed exactly once' corollary is observed through deliveries, not through a worker.",
     "technique": "Coq proof by counting invariant + differential correspondence with concurrently polling consumers",
@@ -154,7 +156,7 @@ PROPS["C15"] = {
             "in the waiting list before every matching message still waiting (FifoInv over arrival stamps, preserved by every "
             "call; rotation of foreign topics keeps the relative order of matching ones); a returned message gets the next "
             "stamp, i.e. is ahead of everything enqueued later. Tie: ~600 histories per quick run, backlogs 0..35 with foreign "
-            "topics, interleaved enqueues, rejects and restarts; oracle: no delivery overtakes an earlier matching live message.",
+            "topics, interleaved enqueues, rejects and restarts; oracle: no delivery overtakes an earlier matching live message. Redis (since the fix recorded for C15): the list fetch returns the oldest served name for EVERY list length (C15_redis_take_list_oldest, via the tail-window identity of LRANGE); tie: ~150 sequential histories with backlogs around the window of ten.",
     "note": MEM_NOTE + "The in-memory broker keeps one FIFO per queue regardless of priority.",
     "technique": "Coq proof by order invariant over arrival stamps + differential correspondence of delivery sequences",
     "design": "DESIGN.md §3 C15",
@@ -273,9 +275,10 @@ PROPS["C03"] = {
             "refuted by a six-step witness for the old order). Tie: the real Worker in virtual time with the stop signal injected at "
             "chosen event-loop iterations (a stratified sample per scenario in quick, EVERY busy iteration in thorough: ~18k runs), "
             "each single-queue run's trace accepted by the model and ending in the observed places; oracle on every run: place, "
-            "parameters (retry counter unchanged), terminal calls, return within graceful + 7 s.",
-    "note": "In-memory broker only: the process-death clause (Redis keeps in-flight state outside the process; recovery after the "
-            "execution timeout by maintenance) is NOT covered in this revision - no Redis model or fake exists yet (DESIGN.md §6). "
+            "parameters (retry counter unchanged), terminal calls, return within graceful + 7 s. Death clause (Redis): maintenance returns a message marked as processed exactly when its execution timeout has elapsed since the second it was taken, never before, and the returned message is in one deliverable place (C03_redis_*); tie: ~120 sequential Redis histories with takes that are never disposed, clock jumps around 600 s and maintenance runs, command stream equal to the model's.",
+    "note": "Shutdown (stop / cancel / finish) is shown for the in-memory broker; the process-death clause for the Redis client in "
+            "sequential histories over the fake server (no real process is killed: a 'dead' worker is one that never disposes of "
+            "what it took). "
             "The return bound is checked by the oracle in virtual time, not proved. Actors are assumed to end when cancelled; cancelled "
             "tasks are assumed to end within the runner's 1 s allowance. Two-queue runs are checked by the oracle only.",
     "technique": "Coq proof by ownership/counting invariant over all event sequences + crash-point enumeration with trace acceptance",
